@@ -161,6 +161,27 @@ def one_meaning(P, rep, rows1):
            "%s: `.equ K = 1` ... `.equ K = 2` gives every reference, also those in front of the second line, the value 2" % why[0])
 
 
+def equ_is_lazy(P, rep, key, consequence):
+    """A `.equ` is a constant: the reference stands in its line.  The implementation stores the expression as written and evaluates it at
+    every use, with the `pc` and the `.set` values of the using line."""
+    import rules_C08
+    fn = "directive::Directive::parse"
+    dv = rules_C08.dvariants(P)
+    inv = {n: d for d, n in dv.items()}
+    M = absint.Machine(P, max_depth=4, opaque={"expr::Expr::run", "parser::parse_file_internal", "context::Context::exist"})
+    paths = M.explore(fn, M.arg_unknowns(fn), doms={sx.S("self*#d", 64, True): sx.dom_set([inv["Equ"]])})
+    stored = []
+    for p in paths:
+        for e in p.events:
+            if e[0] == 'call' and e[1].endswith("::insert") and "equs" in str(e[2][0]):
+                stored.append(str(e[2][2]))
+    lazy = [v for v in stored if "opts*:Assign.1" in v and "run(" not in v]
+    # position-dependent names exist: `pc` is rewritten for every item, .set values change along the file
+    moving = any(k.endswith("set_special") for k in P.reachable(["builder::pass2::pass_2_internal"]))
+    rep.ob(key, not (lazy and moving), "a .equ is stored as a value" if not lazy else
+           "a .equ stores its expression as written and every use evaluates it anew, with the `pc` and `.set` values of the using line: %s" % consequence)
+
+
 def ident_paths(P):
     fn = "expr::Expr::run"
     M = absint.Machine(P, max_depth=4, opaque={"context::Context::get_expr"})
@@ -325,6 +346,7 @@ def run(tier):
     rep.ob("C10.duplicate-label", ok, "binding a label that already exists fails the build; a new one continues" if ok else
            "the result of the label insert is not checked: duplicate labels are accepted (Err paths %d, continue paths %d)" % (len(dup_err), len(dup_ok)))
     one_meaning(P, rep, rows1)
+    equ_is_lazy(P, rep, "C10.equ|evaluated-at-use", "`.set s = 1 / .equ e = s / .set s = 2 / ldi r16, e` loads 2; `.equ e = s` before the first `.set s` builds")
     # every kind of line that can carry a label yields its Label item, before anything else of the line
     import lineitems
     lineitems.check(P, rep, "C10.label|line", want_labels=True, want_instruction=False)
@@ -360,4 +382,6 @@ def run(tier):
     rep.ob("C10.sequence|passes", ok, "labels are all bound (pass 1) before any operand is evaluated (pass 2)" if ok else "pass order is %s" % order)
     equ = any(MU.callee_names(t)[1].endswith("::set_equ") for _, t, _, _ in P.call_sites("directive::Directive::parse"))
     rep.ob("C10.sequence|equ", equ, ".equ is bound while parsing, so it can be referenced before its definition line is reached by the passes" if equ else ".equ is not bound in Directive::parse")
+    import rules_C02
+    rules_C02.byte_operand_dropped(P, rep, "C10.unbound|byte-operand", "a name in the operand is never looked up: `.byte N` with an undefined N, or with N = 4, both count as nothing - the symbol silently stands for zero")
     return rep
